@@ -452,40 +452,50 @@ pub fn run(tier: Tier, seed: u64) -> i32 {
     }
     let all = spaces(tier);
     let mut found = Vec::new();
+    // re-run every in-flight case alone, all at once (each in its own process, own limit)
+    let mut running: Vec<(String, usize, u64, std::process::Child, Instant)> = Vec::new();
     for (sp, idx) in &suspects {
         let limit = all.iter().find(|s| &s.name == sp).map(|s| s.limit_s).unwrap_or(120);
-        let mut child = match std::process::Command::new(&exe)
+        if let Ok(child) = std::process::Command::new(&exe)
             .arg("C01-one")
             .arg(tier.name())
             .arg(sp)
             .arg(idx.to_string())
+            .stdout(std::process::Stdio::null())
             .spawn()
         {
-            Ok(c) => c,
-            Err(_) => continue,
-        };
-        let t0 = Instant::now();
-        let verdict = loop {
-            match child.try_wait() {
-                Ok(Some(st)) => {
-                    break if st.success() { None } else { Some(format!("process ended with {st} (abort / stack overflow / panic)")) }
-                }
+            running.push((sp.clone(), *idx, limit, child, Instant::now()));
+        }
+    }
+    while !running.is_empty() {
+        let mut still = Vec::new();
+        for (sp, idx, limit, mut child, t0) in running {
+            let verdict = match child.try_wait() {
+                Ok(Some(st)) => Some(if st.success() { None } else { Some(format!("process ended with {st} (abort / stack overflow / panic)")) }),
                 Ok(None) => {
                     if t0.elapsed() > Duration::from_secs(limit) {
                         let _ = child.kill();
-                        break Some(format!("did not return within {limit} s (hang)"));
+                        let _ = child.wait();
+                        Some(Some(format!("did not return within {limit} s (hang)")))
+                    } else {
+                        None
                     }
-                    std::thread::sleep(Duration::from_millis(50));
                 }
-                Err(_) => break None,
-            }
-        };
-        if let Some(v) = verdict {
-            if let Some(s) = all.iter().find(|s| &s.name == sp) {
-                let (label, fl) = (s.gen)(*idx);
-                found.push((sp.clone(), label, fl, v));
+                Err(_) => Some(None),
+            };
+            match verdict {
+                None => still.push((sp, idx, limit, child, t0)),
+                Some(None) => {}
+                Some(Some(v)) => {
+                    if let Some(s) = all.iter().find(|s| s.name == sp) {
+                        let (label, fl) = (s.gen)(idx);
+                        found.push((sp.clone(), label, fl, v));
+                    }
+                }
             }
         }
+        running = still;
+        std::thread::sleep(Duration::from_millis(100));
     }
     let out = out_dir();
     let _ = std::fs::create_dir_all(format!("{out}/replays"));
